@@ -1,0 +1,49 @@
+//go:build verif
+
+package mast
+
+// Contracts for the govc verification-condition generator (see /verif/DESIGN.md).
+// This file contains comments only; it adds no code to the package and is compiled
+// only under the build tag `verif`.
+//
+// Syntax (one clause per //@ block; a clause continues on following //@ lines until its
+// parentheses balance):
+//
+//	//@ func NAME                       contract of a function of this package
+//	//@ abstract KEY (params) -> (res)  contract of a function value / interface method / external
+//	//@ tags C01 C02                    properties the automatic obligations of NAME belong to
+//	//@ requires LABEL [tags] SEXPR
+//	//@ ensures  LABEL [tags] SEXPR
+//	//@ loop K invariant LABEL [tags] SEXPR
+//	//@ modifies COMP ...               heap components the function may change (frame)
+//	//@ pure                            modifies nothing
+//	//@ smt SEXPR                       raw SMT-LIB command added to the prelude
+//
+// Clause bodies are SMT-LIB terms over: parameter names (entry values), result names,
+// `result`/`resultN`/`err`, named locals (loop invariants), H0/H (heap at entry / now),
+// W0/W (allocation watermark at entry / now), and the generated accessors (`(Node.Key H r)`).
+
+// ---------------------------------------------------------------------------------------
+// Theory: key layers (C14). lay(v,b) is the published layer function: the number of times
+// b divides v, 0 for v = 0.
+
+//@ smt (declare-fun lay (Int Int) Int)
+//@ smt (assert (forall ((v Int) (b Int)) (! (= (lay v b) (ite (and (not (= v 0)) (= (mod v b) 0)) (+ 1 (lay (div v b) b)) 0)) :pattern ((lay v b)))))
+
+// Arithmetic facts about Euclidean div/mod with a variable divisor (proved once as lemmas).
+//@ lemma modneg [C14] (forall ((v Int) (b Int)) (! (=> (not (= b 0)) (= (= (mod (- v) b) 0) (= (mod v b) 0))) :pattern ((mod (- v) b))))
+//@ lemma divneg [C14] (forall ((v Int) (b Int)) (! (=> (and (not (= b 0)) (= (mod v b) 0)) (= (div (- v) b) (- (div v b)))) :pattern ((div (- v) b))))
+
+//@ func uintLayer
+//@ tags C14
+//@ pure
+//@ requires bf [C14] (>= branchFactor 2)
+//@ ensures lay [C14] (= result (mod (lay v branchFactor) 256))
+//@ loop 1 invariant acc [C14] (and (>= v' 0) (= (mod (+ layer (lay v' branchFactor)) 256) (mod (lay v branchFactor) 256)))
+
+//@ func intLayer
+//@ tags C14
+//@ pure
+//@ requires bf [C14] (and (>= branchFactor 2) (< branchFactor 9223372036854775808))
+//@ ensures lay [C14] (= result (mod (lay v branchFactor) 256))
+//@ loop 1 invariant acc [C14] (= (mod (+ layer (lay v' branchFactor)) 256) (mod (lay v branchFactor) 256))
